@@ -506,7 +506,13 @@ def run(stmts, env):
             continue
         if isinstance(st, ast.AugAssign) and isinstance(st.target, ast.Subscript):
             base = ev(st.target.value, env)
-            if not isinstance(base, (list, dict, IntArr)) or isinstance(base, Rec):
+            if isinstance(base, Rec):
+                k = ev(st.target.slice, env)
+                tmp = dict(env)
+                tmp['__cur__'] = base[freeze(k)]
+                base.put(k, ev(ast.BinOp(left=ast.Name(id='__cur__', ctx=ast.Load()), op=st.op, right=st.value), tmp))
+                continue
+            if not isinstance(base, (list, dict, IntArr)):
                 raise ModelError('minieval: augmented item store')
             k = ev(st.target.slice, env)
             cur = base[k]
@@ -526,6 +532,9 @@ def run(stmts, env):
         if isinstance(st, ast.Expr) and isinstance(st.value, ast.Call) and isinstance(st.value.func, ast.Attribute) \
                 and st.value.func.attr in ('append', 'extend', 'reverse', 'insert', 'add') and not st.value.keywords:
             recv = ev(st.value.func.value, env)
+            if isinstance(recv, NS) and getattr(getattr(recv, st.value.func.attr, None), '_kv_stub', False):
+                ev(st.value, env)          # a recording stub of the rule that happens to be called append / add / ...
+                continue
             if not isinstance(recv, (list, set)):
                 raise ModelError(f'minieval: {st.value.func.attr} on {type(recv).__name__}')
             getattr(recv, st.value.func.attr)(*_args(st.value.args, env))
